@@ -164,6 +164,44 @@ def check_set(core, parser, v, ec, rec):
     except Exception as e:
         rec.violation('raised:%s:build' % type(e).__name__, case, {'exc': repr(e)[:200]})
         return
+    # ---- the caller's dictionary: given to an older-version message first (which has no truncation character), then to a
+    # message of this version - it is the caller's, and still says what it said
+    if 'TRUNCATION' in ec:
+        rec.evaluation((v, ec_tuple(ec), 'shared-dict'))
+        try:
+            shared = dict(ec)
+            try:
+                core.Message('ADT_A01', version='2.5', encoding_chars=shared)
+            except Exception:
+                rec.count('six_character_set_refused_by_older_version')
+            m6 = core.Message('ADT_A01', version=v, encoding_chars=shared)
+            rec.count('shared_dictionary_checks')
+            if {k: x for k, x in shared.items() if k not in ('GROUP', 'SEGMENT')} != dict(ec) or \
+                    m6.encoding_chars != exp or m6.msh.msh_2.to_er7() != gen.msh2(ec):
+                rec.violation('callers-dictionary-altered-or-truncation-lost', case,
+                              {'dictionary_now': shared, 'msh_2': m6.msh.msh_2.to_er7()})
+                return
+        except Exception as e:
+            rec.violation('raised:%s:shared-dict' % type(e).__name__, case, {'exc': repr(e)[:200]})
+            return
+    # ---- MSH-2 re-assigned through the ordinary child API: from then on the new characters govern the whole message
+    rec.evaluation((v, ec_tuple(ec), 'msh2-reassigned'))
+    try:
+        pool = [c for c in '!$%*+;<=>?@#' if c not in ec.values()]
+        ec2 = dict(ec, COMPONENT=pool[0], REPETITION=pool[1], ESCAPE=pool[2], SUBCOMPONENT=pool[3])
+        m.encoding_chars, m.to_er7()
+        m.children.remove(z)       # (its leaf holds the old delimiters as data: plain characters under the new set)
+        m.msh.msh_2 = gen.msh2(ec2)
+        er2 = m.to_er7()
+        rec.count('msh2_reassignment_checks')
+        if m.encoding_chars != gen.full_ec(ec2):
+            rec.violation('encoding_chars-getter-differs:msh2-reassigned', case, {'got': m.encoding_chars, 'msh_2': gen.msh2(ec2)})
+            return
+        if not judge_encoding(er2, ec2, v, seg, row, crow, rec, case, 'msh2-reassigned', subs):
+            return
+    except Exception as e:
+        rec.violation('raised:%s:msh2-reassigned' % type(e).__name__, case, {'exc': repr(e)[:200]})
+        return
     # ---- a segment prepared on its own (written and read back, so anything it remembers is filled), then added to a message
     # built with this set: from then on the message's characters govern it, for reading back and for splitting new text
     rec.evaluation((v, ec_tuple(ec), 'moved-subtree'))
